@@ -177,6 +177,10 @@ def outcome(ctx, fn, p):
 
 
 def run_case(ctx, case):
+    if case.get("kind") == "kinds":
+        from . import _kinds
+
+        return _kinds.run(ctx, case, "C05")
     recipe = dict(case["recipe"], env=True)
     vals = case["values"]
     shapes = P.all_shapes(recipe)
@@ -281,7 +285,10 @@ def plan(tier):
 
 
 def run_shard(spec, ctx):
-    run_given(ctx, case_strategy(spec["depth"]), body(ctx), spec["n"])
+    from . import _kinds
+
+    main = case_strategy(spec["depth"])
+    run_given(ctx, st.integers(0, 4).flatmap(lambda i: _kinds.case_strategy() if i == 0 else main), body(ctx), spec["n"])
 
 
 def health(tier, evaluations, nontrivial, classes):
